@@ -67,7 +67,12 @@ EmbTag(n, j, t)   == [n |-> n, j |-> j, emb |-> TRUE, t |-> t]
 (* The declared struct types of harness/c18_types.go.  The trace specification checks the *)
 (* harness's reflection of each declared type against this table.                        *)
 PlainNames == {"N1", "N2"}
-RecNames   == {"RPtr", "RPtrOE", "RSlice", "RPSlice", "RMap", "RMapV", "MA", "MB", "EA", "EB", "RSS", "ES"}
+(* Mutually recursive families whose members share a property name with different JSON types *)
+(* (id / label: string, integer, boolean), closing through pointers, struct values, slices    *)
+(* and maps: cycles of length 2 (FA-FB, ND-MT, GA-GB) and 3 (TA-TB-TC, UA-UB-UC).  Their      *)
+(* pointers are omitempty, so a value that ends the recursion encodes no null.                *)
+DeepNames  == {"FA", "FB", "ND", "MT", "GA", "GB", "TA", "TB", "TC", "UA", "UB", "UC"}
+RecNames   == {"RPtr", "RPtrOE", "RSlice", "RPSlice", "RMap", "RMapV", "MA", "MB", "EA", "EB", "RSS", "ES"} \cup DeepNames
 DefNames   == PlainNames \cup RecNames
 Defs(n) ==
    CASE n = "N1"      -> Struct(<<Fld("A", "a", B("int8"))>>)
@@ -84,6 +89,19 @@ Defs(n) ==
      [] n = "EB"      -> Struct(<<FldOE("A", "a", Ptr(Named("EA"))), Fld("W", "w", B("string"))>>)
      [] n = "RSS"     -> Struct(<<Fld("G", "g", Slice(Slice(Named("RSS")))), Fld("V", "v", B("int8"))>>)
      [] n = "ES"      -> Struct(<<Emb("ES", Ptr(Named("ES"))), Fld("V", "v", B("int8"))>>)
+     [] n = "FA"      -> Struct(<<Fld("ID", "id", B("string")), FldOE("Owner", "owner", Ptr(Named("FB")))>>)
+     [] n = "FB"      -> Struct(<<Fld("ID", "id", B("int64")), FldOE("Home", "home", Ptr(Named("FA")))>>)
+     [] n = "ND"      -> Struct(<<Fld("Label", "label", B("string")), Fld("Meta", "meta", Named("MT"))>>)
+     [] n = "MT"      -> Struct(<<Fld("Label", "label", B("bool")), Fld("Parents", "parents", Slice(Named("ND"))),
+                                  FldOE("Origin", "origin", Ptr(Named("ND")))>>)
+     [] n = "GA"      -> Struct(<<Fld("ID", "id", B("string")), Fld("M", "m", Map(Named("GB")))>>)
+     [] n = "GB"      -> Struct(<<Fld("ID", "id", B("int8")), Fld("N", "n", Map(Named("GA")))>>)
+     [] n = "TA"      -> Struct(<<Fld("ID", "id", B("string")), FldOE("B", "b", Ptr(Named("TB")))>>)
+     [] n = "TB"      -> Struct(<<Fld("ID", "id", B("int8")), FldOE("C", "c", Ptr(Named("TC")))>>)
+     [] n = "TC"      -> Struct(<<Fld("ID", "id", B("bool")), FldOE("A", "a", Ptr(Named("TA")))>>)
+     [] n = "UA"      -> Struct(<<Fld("ID", "id", B("string")), Fld("Bs", "bs", Slice(Named("UB")))>>)
+     [] n = "UB"      -> Struct(<<Fld("ID", "id", B("int8")), Fld("Cm", "cm", Map(Named("UC")))>>)
+     [] n = "UC"      -> Struct(<<Fld("ID", "id", B("bool")), FldOE("A", "a", Ptr(Named("UA")))>>)
 
 StructOf(T) == IF T.k = "named" THEN Defs(T.n) ELSE T
 IsStructLike(T) == T.k \in {"struct", "named"}
@@ -93,8 +111,8 @@ Flattens(fd) == /\ Has(fd, "emb") /\ ~Has(fd, "j")
 JsonName(fd) == IF Has(fd, "j") /\ fd.j # "" THEN fd.j ELSE fd.n
 
 (* every JSON object key of the universe in byte order (TLC cannot compare strings) *)
-NameOrder == <<"A", "B", "C", "E", "F", "a", "b", "c", "e", "g", "k", "kids", "l", "m", "next", "p", "q", "s",
-               "v", "w", "x">>
+NameOrder == <<"A", "B", "C", "E", "F", "a", "b", "bs", "c", "cm", "e", "g", "home", "id", "k", "kids", "l", "label",
+               "m", "meta", "n", "next", "origin", "owner", "p", "parents", "q", "s", "v", "w", "x">>
 SortNames(S) == SelectSeq(NameOrder, LAMBDA n : n \in S)
 NameIdx(n) == CHOOSE i \in DOMAIN NameOrder : NameOrder[i] = n
 
@@ -140,6 +158,10 @@ TimeOf(id) ==
 
 FUEL == 2      \* how often a value may enter a declared type before pointers/slices/maps are cut
 MaxV == 6      \* at most this many values per type
+(* the mutually recursive families are unfolded far enough for a value to pass a cycle of *)
+(* length 3 twice (7 declared types on the path), with the variants to get there          *)
+DeepFUEL == 7
+DeepMaxV == 8
 
 Max2(a, b) == IF a > b THEN a ELSE b
 RECURSIVE MaxOver(_, _)
@@ -154,7 +176,8 @@ NV(T, fuel) ==
      [] T.k = "named"  -> NV(Defs(T.n), IF fuel > 0 THEN fuel - 1 ELSE 0)
 
 (* the i-th variant: every leaf runs through its boundary values, containers through   *)
-(* nil/empty first and then two neighbouring variants of the element                   *)
+(* nil/empty first and then two neighbouring variants of the element (one element      *)
+(* while a deeply unfolded value is still above the ordinary unfolding depth)          *)
 RECURSIVE Val(_, _, _)
 Val(T, i, fuel) ==
    LET n == NV(T, fuel)
@@ -162,8 +185,10 @@ Val(T, i, fuel) ==
    CASE T.k \in BaseKinds -> BaseVals(T.k)[j]
      [] T.k = "ptr"   -> IF fuel = 0 \/ j = 1 THEN GNil ELSE [g |-> "ptr", e |-> Val(T.e, j - 1, fuel)]
      [] T.k = "slice" -> IF fuel = 0 \/ j = 1 THEN [g |-> "slice", a |-> <<>>]
+                         ELSE IF fuel > FUEL THEN [g |-> "slice", a |-> <<Val(T.e, j, fuel)>>]
                          ELSE [g |-> "slice", a |-> <<Val(T.e, j - 1, fuel), Val(T.e, j, fuel)>>]
      [] T.k = "map"   -> IF fuel = 0 \/ j = 1 THEN [g |-> "map", k |-> <<>>, v |-> <<>>]
+                         ELSE IF fuel > FUEL THEN [g |-> "map", k |-> <<"k">>, v |-> <<Val(T.e, j, fuel)>>]
                          ELSE [g |-> "map", k |-> <<"k", "l">>, v |-> <<Val(T.e, j - 1, fuel), Val(T.e, j, fuel)>>]
      [] T.k = "struct" -> [g |-> "struct", f |-> [x \in DOMAIN T.f |-> Val(T.f[x].t, j, fuel)]]
      [] T.k = "named"  -> Val(Defs(T.n), j, IF fuel > 0 THEN fuel - 1 ELSE 0)
@@ -230,14 +255,7 @@ Enc(T, gv) ==
      [] gv.g = "map"    -> Obj(gv.k, [x \in DOMAIN gv.v |-> Enc(T.e, gv.v[x])])
      [] gv.g = "struct" -> EncStruct(T, gv)
 
-(* the values a type is judged on: its variants, without those that encode as null *)
-GoVals(T) ==
-   LET n == IF NV(T, FUEL) > MaxV THEN MaxV ELSE NV(T, FUEL)
-       all == [i \in 1..n |-> Val(T, i, FUEL)]
-   IN SelectSeq(all, LAMBDA gv : Enc(T, gv).t # "null")
-
------------------------------------------------------------------------------
-(* syntactic helpers *)
+(* declared types mentioned in / reachable from a type *)
 RECURSIVE NamesIn(_)
 NamesIn(T) == CASE T.k \in BaseKinds -> {}
                 [] T.k \in {"ptr", "slice", "map"} -> NamesIn(T.e)
@@ -249,6 +267,17 @@ Reach(ns, hops) == IF hops = 0 THEN ns
                    ELSE Reach(ns \cup UNION {NamesIn(Defs(n)) : n \in ns}, hops - 1)
 ReachNames(T) == Reach(NamesIn(T), 3)
 
+(* the values a type is judged on: its variants, without those that encode as null *)
+GoVals(T) ==
+   LET deep == ReachNames(T) \cap DeepNames # {}
+       fuel == IF deep THEN DeepFUEL ELSE FUEL
+       maxv == IF deep THEN DeepMaxV ELSE MaxV
+       n == IF NV(T, fuel) > maxv THEN maxv ELSE NV(T, fuel)
+       all == [i \in 1..n |-> Val(T, i, fuel)]
+   IN SelectSeq(all, LAMBDA gv : Enc(T, gv).t # "null")
+
+-----------------------------------------------------------------------------
+(* syntactic helpers *)
 (* does T contain an anonymous (reflect-built) struct that the generator treats as a schema *)
 (* of its own below the root (embedded-and-flattened ones are not)?  root: only pointers    *)
 (* between T and the type the caller passed                                                 *)
